@@ -387,6 +387,10 @@ class ReportBase(ABC):
             negate = text.startswith("~")
             flag = text[1:].strip() if negate else text
             prop = getattr(query, "property", None)
+            if prop is not None and flag == "isleaf()":
+                # The query function of the language: 'hidetask ~isleaf()' lists leaves only
+                is_leaf = bool(prop.leaf())
+                return (not is_leaf) if negate else is_leaf
             if prop is None or not flag.replace("_", "").isalnum():
                 return False  # an expression this evaluator cannot read hides nothing
             flags: Any = []
